@@ -1504,6 +1504,9 @@ fn run_child_window(a: &Args, base: u64, kind: Kind, from: u64, to: u64, stride:
         .output();
     let Ok(out) = out else { return ChildEnd::HarnessError };
     match out.status.code() {
+        Some(0) if !String::from_utf8_lossy(&out.stdout).contains("SEQ-CLEAN") => {
+            ChildEnd::Died("the process ended with status 0 before finishing the window: something in the code under test ended it".into())
+        }
         Some(0) => ChildEnd::Clean,
         Some(1) => {
             let so = String::from_utf8_lossy(&out.stdout);
